@@ -111,25 +111,26 @@ CHECKS = {
 
 # passes added after the first version of each monitor (rounds 1-3 of the seeded changes, DESIGN.md §10.6)
 ADDED = {
- "C01": "Added later: neighbouring-message checks on every issued signature, opposite-sign witnesses, the honest proof under a channel id differing in one bit.",
- "C02": "Added later: a tracker that fires when one pay token is accepted under two public nonces, compensating plans (nonce+1 balanced in another slot), boundary bases, and the closing signature of the old state spent as pay token under a fresh nonce.",
- "C03": "Added later: in-memory identity replies for the four merchant calls, replies made of small-order points.",
- "C05": "Added later: band digests and crafted pair generation, the C02 forger's committed-lock plans under all strategies.",
- "C06": "Added later: all 256 channel-id bits, near range parameters, per-key-element substitution, a degenerate in-memory closing signature, digest-of-context contexts, wire amounts including i64::MIN.",
- "C07": "Added later: zero-exponent messages, signing under zero windows, a crafted-key case.",
- "C08": "Added later: zero-randomiser signer, decode probe of VerifiedBlindedMessage, order-3 shift tamper, corrupted signer key.",
- "C09": "Added later: generated parameters under zero windows.",
- "C10": "Added later: word-sized values, new() versus default constructors.",
- "C11": "Added later: non-canonical (+q) scalars, length prefixes, order-3 shifts, simulated transcripts with machine-word-sized responses and about the identity statement.",
- "C12": "Added later: every parameter atom, related-context corpus, constructors.",
- "C13": "Added later: coordinated pairs of invalid digit proofs, cooperating sigma2 substitutions in validate(), a digit signature extrapolated from two published ones, and an adaptive prover that re-fits one digit proof after the challenge.",
+ "C01": "Added later: neighbouring-message checks on every issued signature, opposite-sign witnesses, the honest proof under a channel id differing in one bit. When the shadow control is refused but the library customer is accepted, the customer's closing signature is checked against the agreed message by the reference.",
+ "C02": "Added later: a tracker that fires when one pay token is accepted under two public nonces, compensating plans (nonce+1 balanced in another slot), boundary bases, and the closing signature of the old state spent as pay token under a fresh nonce. A token made of curve points outside the prime-order group; the byte-identical blinded token of an earlier accepted proof replayed around another commitment.",
+ "C03": "Added later: in-memory identity replies for the four merchant calls, replies made of small-order points. Channel id changed in one of its two top bits; another customer's honest reply delivered first at each of the four reply points.",
+ "C04": "Added later: every stage names the channel it was opened for (accessor against the session's id).",
+ "C05": "Added later: band digests and crafted pair generation, the C02 forger's committed-lock plans under all strategies. A payment whose revocation commitment uses the blinding factor zero.",
+ "C06": "Added later: all 256 channel-id bits, near range parameters, per-key-element substitution, a degenerate in-memory closing signature, digest-of-context contexts, wire amounts including i64::MIN. The same substitutions with the proof handed over as an in-memory object.",
+ "C07": "Added later: zero-exponent messages, signing under zero windows, a crafted-key case. Word-sized message entries; is_well_formed compared with its definition.",
+ "C08": "Added later: zero-randomiser signer, decode probe of VerifiedBlindedMessage, order-3 shift tamper, corrupted signer key. +1/-1 on a pair of coordinates and exchanged coordinates; the request about the identity element; second verification of the same request.",
+ "C09": "Added later: generated parameters under zero windows. Word-sized exponents and blinding factors; a second key sharing both generators read after the first; the negated opening.",
+ "C10": "Added later: word-sized values, new() versus default constructors. Every honest proof verified twice and after a trip through its wire form; signature proofs under scripted zero draws.",
+ "C11": "Added later: non-canonical (+q) scalars, length prefixes, order-3 shifts, simulated transcripts with machine-word-sized responses and about the identity statement. One decoded object verified under alternating challenges; blinding factor related to key and message.",
+ "C12": "Added later: every parameter atom, related-context corpus, constructors. Negated points, small scalar sequences, call-history independence of the challenge.",
+ "C13": "Added later: coordinated pairs of invalid digit proofs, cooperating sigma2 substitutions in validate(), a digit signature extrapolated from two published ones, and an adaptive prover that re-fits one digit proof after the challenge. A top digit signed by curve points outside the group.",
  "C14": "Added later: an entropy-failure pass, hostile range parameters (crafted elements, digit signatures made of small-order points) with sessions judged even when cut short.",
  "C15": "Added later: length prefixes, RevocationLock::from_bytes.",
- "C16": "Added later: a JSON pass, ChannelId::from_str on hostile strings including multi-byte characters at every alignment, wide instantiations (N=13, 40 scalars) in the quick tier.",
- "C17": "Added later: cross-amount checks (a proof made for X offered under Y at the encoding boundaries).",
- "C18": "Added later: tag+q sample pattern, single key elements in the channel id, account infos up to 8 KiB with the last byte changed, a close-tag forger on the establish side and the closing signature spent as pay token on the pay side.",
+ "C16": "Added later: a JSON pass, ChannelId::from_str on hostile strings including multi-byte characters at every alignment, wide instantiations (N=13, 40 scalars) in the quick tier. Length prefixes whose product with an element size wraps.",
+ "C17": "Added later: cross-amount checks (a proof made for X offered under Y at the encoding boundaries). The named zero constructors.",
+ "C18": "Added later: tag+q sample pattern, single key elements in the channel id, account infos up to 8 KiB with the last byte changed, a close-tag forger on the establish side and the closing signature spent as pay token on the pay side. Tag patterns for draws of any length; empty / whitespace / invalid-UTF-8 account infos; randomness + q.",
  "C19": "Added later: samples q, 2q, 256q (reduce to zero), and algebraically related samples (x = -sum y_i m_i; range key x = -d*y) that make a legitimate signature with sigma2 = identity.",
- "C20": "Added later: histories with a zero or close-tag scalar sample, and a JSON store format (alone and alternating with the binary one) on balances around 2^53.",
+ "C20": "Added later: histories with a zero or close-tag scalar sample, and a JSON store format (alone and alternating with the binary one) on balances around 2^53. Several refused replies in a row before a restore.",
 }
 
 IMPLEMENTED = set(CHECKS)
